@@ -26,7 +26,7 @@ CLAIMED = {
              text="All subsets of failing serializers for start/success/stand-alone typed messages on the model; on the code harness serializers wrap values so double application is visible, placement of eliot:traceback / eliot:serialization_failure compared with the spec.", ref="6 C13"),
 }
 
-ENABLED = {"C09", "C16", "C06", "C19", "C18", "C15", "C20", "C14", "C11", "C17"}
+ENABLED = {"C09", "C16", "C06", "C19", "C18", "C15", "C20", "C14", "C11", "C17", "C10"}
 
 
 def main():
